@@ -6,8 +6,8 @@
 #include <m4ri/solve.h>
 const char *prop_id = "C16";
 typedef struct { int kind, m, l, n, param, team, nested, prefill, limit, outer; } scen_t;
-enum { F_MUL_MP, F_ADDMUL_MP, F_MUL, F_M4RM, F_ECH, F_ADDMUL_M4RM, F_TRSM_LL, F_TRSM_UL, F_TRSM_LR, F_TRSM_UR, F_ECH_PLUQ, F_INV, F_TRTRI, F_KERNEL, F_NK };
-static const char *fname[] = {"mzd_mul_mp", "mzd_addmul_mp", "mzd_mul", "mzd_mul_m4rm", "mzd_echelonize_m4ri", "mzd_addmul_m4rm", "mzd_trsm_lower_left", "mzd_trsm_upper_left", "mzd_trsm_lower_right", "mzd_trsm_upper_right", "mzd_echelonize_pluq", "mzd_inv_m4ri", "mzd_trtri_upper", "mzd_kernel_left_pluq"};
+enum { F_MUL_MP, F_ADDMUL_MP, F_MUL, F_M4RM, F_ECH, F_ADDMUL_M4RM, F_TRSM_LL, F_TRSM_UL, F_TRSM_LR, F_TRSM_UR, F_ECH_PLUQ, F_INV, F_TRTRI, F_KERNEL, F_MUL_MP_SUP, F_NK };
+static const char *fname[] = {"mzd_mul_mp", "mzd_addmul_mp", "mzd_mul", "mzd_mul_m4rm", "mzd_echelonize_m4ri", "mzd_addmul_m4rm", "mzd_trsm_lower_left", "mzd_trsm_upper_left", "mzd_trsm_lower_right", "mzd_trsm_upper_right", "mzd_echelonize_pluq", "mzd_inv_m4ri", "mzd_trtri_upper", "mzd_kernel_left_pluq", "mzd_mul_mp(C supplied, non-zero)"};
 static scen_t SC[4096]; static int nsc = 0, cur = 0; static char NAME[200];
 static pm *A, *B, *C0, *REFM; static int REFRANK; static uint64_t GOTD; static int GOTRANK;
 static int g_tier = 0, g_teams_all = 0, g_prefill_only = 0; static unsigned g_kinds = 0xffffffffu; static int g_maxteam = 99, g_quicklist = 0; static char g_as[8] = "C16";
@@ -42,6 +42,8 @@ void hb_args(int argc, char **argv) {
        columns only, inner dimension only, ...) */
     for (int rm = 0; rm < 8; rm++) { int m = (rm & 1) ? 300 : 256, l = (rm & 2) ? 290 : 256, n = (rm & 4) ? 200 : 256; add(F_MUL_MP, m, l, n, 64, 2); add(F_ADDMUL_MP, m, l, n, 64, 2); if (rm == 1 || rm == 4 || rm == 6) { add(F_ADDMUL_MP, m, l, n, 128, 4); add(F_MUL_MP, m, l, n, 128, 4); } }
     add(F_TRTRI, 700, 0, 0, 0, 2); add(F_TRTRI, 400, 0, 0, 0, 4);
+    /* the overwriting front end with a caller-supplied destination that holds other data, on every remainder pattern */
+    for (int rm = 0; rm < 8; rm++) { int m = (rm & 1) ? 300 : 256, l = (rm & 2) ? 290 : 256, n = (rm & 4) ? 200 : 256; add(F_MUL_MP_SUP, m, l, n, 64, 2); } add(F_MUL_MP_SUP, 129, 130, 131, 64, 4); add(F_MUL_MP_SUP, 100, 100, 100, 64, 2);
     /* PLE-based routines on WIDE operands (more than 8 words to the right of a pivot block) */
     add(F_ECH_PLUQ, 200, 0, 700, 1, 2); add(F_KERNEL, 150, 0, 700, 0, 2); add(F_KERNEL, 300, 0, 900, 0, 4); add(F_ECH_PLUQ, 120, 0, 1100, 1, 4);
     /* the runtime delivers FEWER threads than omp_get_max_threads() / a num_threads clause ask for (thread limit, dynamic adjustment),
@@ -60,7 +62,7 @@ void hb_args(int argc, char **argv) {
     /* internally parallel loops: > 512 rows so that the static chunks are spread over the threads */
     add(F_M4RM, 1025, 64, 64, 0, team); add(F_M4RM, 1537, 70, 65, 3, team); add(F_ADDMUL_M4RM, 1030, 65, 64, 0, team); add(F_MUL, 1100, 64, 130, 0, team);
     add(F_ECH, 1100, 0, 200, 1, team); add(F_ECH, 1540, 0, 130, 0, team); add(F_ECH, 520, 0, 520, 1, team);
-    if (team <= 5) for (int rm = 0; rm < 8; rm++) { int m = (rm & 1) ? 300 : 256, l = (rm & 2) ? 290 : 256, n = (rm & 4) ? 200 : 256; add(F_MUL_MP, m, l, n, 64, team); add(F_ADDMUL_MP, m, l, n, 64, team); add(F_ADDMUL_MP, m, l, n, 128, team); }
+    if (team <= 5) for (int rm = 0; rm < 8; rm++) { { int m = (rm & 1) ? 300 : 256, l = (rm & 2) ? 290 : 256, n = (rm & 4) ? 200 : 256; add(F_MUL_MP_SUP, m, l, n, 64, team); add(F_MUL_MP_SUP, m, l, n, 128, team); } int m = (rm & 1) ? 300 : 256, l = (rm & 2) ? 290 : 256, n = (rm & 4) ? 200 : 256; add(F_MUL_MP, m, l, n, 64, team); add(F_ADDMUL_MP, m, l, n, 64, team); add(F_ADDMUL_MP, m, l, n, 128, team); }
     if (team >= 2) { for (int lim = 1; lim < team && lim <= 4; lim++) { add_env(F_MUL_MP, 200, 257, 130, 64, team, lim, 0); add_env(F_ADDMUL_MP, 131, 129, 200, 64, team, lim, 0); add_env(F_MUL_MP, 300, 256, 256, 64, team, lim, 0); } add_env(F_MUL_MP, 200, 257, 130, 64, team, 0, 1); add_env(F_ADDMUL_MP, 131, 129, 200, 64, team, 0, 1); add_env(F_M4RM, 1025, 64, 64, 0, team, 0, 1); }
     if (team <= 5 || team == 8 || team == 16) { add(F_ECH_PLUQ, 200, 0, 700, 1, team); add(F_KERNEL, 150, 0, 700, 0, team); add(F_KERNEL, 300, 0, 900, 0, team); add(F_TRTRI, 700, 0, 0, 0, team); add(F_TRTRI, 400, 0, 0, 0, team); add(F_TRSM_LL, 650, 0, 70, 0, team); add(F_TRSM_UL, 650, 0, 70, 0, team); add(F_TRSM_LR, 600, 0, 70, 0, team); add(F_TRSM_UR, 600, 0, 70, 0, team); add(F_TRSM_LL, 1100, 0, 130, 0, team); add(F_TRSM_UL, 1100, 0, 65, 0, team); add(F_ECH_PLUQ, 700, 0, 200, 1, team); add(F_ECH_PLUQ, 1100, 0, 130, 0, team); add(F_INV, 600, 0, 0, 0, team); add(F_INV, 530, 0, 0, 3, team); }
     if (team >= 2 && team <= 4) { add_nested(F_MUL_MP, 1200, 700, 1160, 512, team, 2); add_nested(F_ADDMUL_MP, 1160, 650, 1200, 512, team, 2); add_nested(F_MUL_MP, 1200, 300, 1200, 512, team, 3); }
@@ -109,6 +111,7 @@ static uint64_t do_op(scen_t *q, int *rank) {
   switch (q->kind) {
   case F_MUL_MP: R = mzd_mul_mp(NULL, Az, Bz, q->param); break;
   case F_ADDMUL_MP: Cz = mzd_from_pm(C0); R = mzd_addmul_mp(Cz, Az, Bz, q->param); break;
+  case F_MUL_MP_SUP: Cz = mzd_from_pm(C0); R = mzd_mul_mp(Cz, Az, Bz, q->param); break;
   case F_MUL: R = mzd_mul(NULL, Az, Bz, q->param); break;
   case F_M4RM: R = mzd_mul_m4rm(NULL, Az, Bz, q->param); break;
   case F_ADDMUL_M4RM: Cz = mzd_from_pm(C0); R = mzd_addmul_m4rm(Cz, Az, Bz, q->param); break;
